@@ -697,6 +697,24 @@ def run_unit(cdef, config=None, callee_contracts=None):
     return res
 
 
+def _consts(t):
+    out = []
+    stack = [t]
+    seen = set()
+    while stack:
+        x = stack.pop()
+        if x.get_id() in seen:
+            continue
+        seen.add(x.get_id())
+        if z3.is_const(x) and x.decl().kind() == z3.Z3_OP_UNINTERPRETED:
+            out.append(x)
+        elif z3.is_app(x):
+            stack.extend(x.children())
+        elif z3.is_quantifier(x):
+            stack.append(x.body())
+    return out
+
+
 def run_path(I, fn, cdef, pc):
     node = func_ast(fn)[0]
     # 1. symbolic arguments
@@ -716,6 +734,7 @@ def run_path(I, fn, cdef, pc):
     fr0.env['CHAIN'] = I.config.get('chain')
     I.entry_snapshot = I.snapshot()
     # 2. preconditions, case splits and lemma instances, in source order
+    bound_by_eq = set()
     for kind, call in pc.pre:
         if kind == 'split':
             sp = call.args
@@ -754,6 +773,22 @@ def run_path(I, fn, cdef, pc):
         I.pure += 1
         try:
             if kind == 'requires':
+                c0 = call.args[0]
+                # requires(param == expr) for a still-unconstrained byte-string parameter: bind the
+                # parameter to the expression itself (keeps the structure of the value syntactic)
+                if isinstance(c0, ast.Compare) and len(c0.ops) == 1 and isinstance(c0.ops[0], ast.Eq) \
+                        and isinstance(c0.left, ast.Name) and isinstance(argvals.get(c0.left.id), SSeq) \
+                        and c0.left.id not in bound_by_eq and z3.is_const(argvals[c0.left.id].t) \
+                        and not any(argvals[c0.left.id].t.eq(x) for p_ in I.st.pc for x in _consts(p_)):
+                    rv = I.eval(c0.comparators[0])
+                    if I.is_seqlike(rv):
+                        old_v = argvals[c0.left.id]
+                        nv = SSeq(I.seq_term(rv), old_v.cls, old_v.attrs)
+                        argvals[c0.left.id] = nv
+                        fr0.env[c0.left.id] = nv
+                        I.path_inputs[c0.left.id] = nv
+                        bound_by_eq.add(c0.left.id)
+                        continue
                 bt = I.bool_term(I.eval(call.args[0]))
                 I.assume(z3.BoolVal(bt) if isinstance(bt, bool) else bt)
             else:
@@ -780,7 +815,7 @@ def run_path(I, fn, cdef, pc):
     except PyRaise as pr:
         outcome = ('raise', pr.exc)
     # 4. postconditions
-    I.exit_reached = I.query(I.st.pc, z3.BoolVal(True), 2000) != z3.unsat
+    I.exit_reached = I.query(I.st.pc, z3.BoolVal(True), 400) != z3.unsat
     I.frame = fr0
     where = '%s exit' % qualname(fn)
     I.pure += 1
